@@ -169,6 +169,8 @@ def explore_c04(rng, tier, res, deep=False):
         qs.add(q)
     for _ in range(n // 2):
         qs.add(gen.soup(rng))
+    for _ in range(n // 3):
+        qs.add(operand_soup(rng))
     corpus = CORPUS if tier == "thorough" else rng.sample(CORPUS, 6 if not deep else 14)
     for c in corpus:
         nb = edit_neighbours(c, EDIT_ALPHABET)
@@ -339,8 +341,38 @@ def explore_c05(rng, tier, res, deep=False):
 # C13
 
 
+OPERANDS = ["@.a", "@", "$.b", "$", "1", "-1", "1.5", "'x'", '"y"', "true", "false", "null", "length(@)", "count(@.*)", "@[0]", "@.*", "(@.a)", "!@.a"]
+OPERATORS = ["==", "!=", "<", "<=", ">", ">=", "&&", "||", "!", ",", ""]
+
+
+def operand_soup(rng):
+    """almost-valid filters: operands and operators with some missing, doubled or misplaced, in parentheses,
+    function arguments or at the top of a filter"""
+    n = rng.randint(2, 5)
+    items = []
+    for i in range(n):
+        items.append(rng.choice(OPERANDS))
+        if i < n - 1:
+            items.append(rng.choice(OPERATORS) if rng.random() < 0.6 else "")
+    body = " ".join(x for x in items if x != "" or rng.random() < 0.5)
+    k = rng.random()
+    if k < 0.35:
+        body = "(" + body + ")"
+    elif k < 0.5:
+        body = "((" + body + "))"
+    elif k < 0.65:
+        body = rng.choice(["length", "count", "value", "match", "foo"]) + "(" + body + ")" + rng.choice(["", "==1", " == 1"])
+    elif k < 0.75:
+        body = "!(" + body + ")"
+    elif k < 0.85:
+        body = "@.a && (" + body + ")"
+    return "$[?" + body + "]"
+
+
 def garbage(rng, max_len=1024, max_nest=32):
     parts = []
+    if rng.random() < 0.2:
+        return operand_soup(rng)
     k = rng.random()
     if k < 0.3:
         # deep but balanced nesting around valid fragments
